@@ -18,7 +18,7 @@ LEVEL = "exploration"
 RULE = (
     "cases are (x, err) pairs: (hyp) Hypothesis floats, sign x mantissa in "
     "[1,10) x exponent in -300..300 (and x=0), err=|x|*10^U(-12,12) clamped "
-    "to the normal range [1e-300,1e300]; (lattice) itertools.product of err "
+    "to [1e-300, largest finite double]; (lattice) itertools.product of err "
     "mantissas around every 2-s.f. rounding boundary (k/10+0.05 +- "
     "{0,1e-9,1e-6,1e-3}), x mantissas around 1 and 10, relative exponent "
     "-12..12, absolute exponents and both signs; (atheris) coverage-guided "
@@ -32,14 +32,15 @@ RULE = (
     "construction)."
 )
 ASSUMPTIONS = [
-    "err restricted to normal doubles in [1e-300, 1e300] (sub-normal errors "
-    "have fewer than two significant digits)",
+    "err >= 1e-300 (sub-normal errors have fewer than two significant "
+    "digits); upwards every finite double is generated",
     "ties (exactly half a unit) are accepted either way",
     "the reader's convention: bracketed digits are the uncertainty in the "
     "last shown digits, times the shown power of ten",
 ]
 
 _fn = None
+FMAX = sys.float_info.max    # largest finite error: |x| <= 1e300, ratio 1e12
 
 
 def fn():
@@ -70,8 +71,13 @@ def classes(case):
         r = err / abs(x)
         out.append("err>x" if r > 1 else "err<x/10" if r < .1 else "err~x")
         out.append("neg" if x < 0 else "pos")
-    s = fn()(x, err)
-    out.append("exponent-shown" if "e" in s else "exponent-hidden")
+    try:
+        s = fn()(x, err)
+    except Exception:
+        s = None        # (reported by run_case)
+    out.append("no-string" if s is None else
+               "exponent-shown" if "e" in s else "exponent-hidden")
+    out.append("err>1e300" if err > 1e300 else "err<=1e300")
     return out
 
 
@@ -97,7 +103,7 @@ def strategy(draw):
         if draw(st.booleans()):
             x = -x
         ee = xe + draw(st.integers(-12, 12))
-    err = draw(_mant()) * 10.0 ** max(-300, min(299, ee))
+    err = min(draw(_mant()) * 10.0 ** max(-300, min(308, ee)), FMAX)
     return {"x": x, "err": err}
 
 
@@ -139,13 +145,14 @@ def lattice(tier, seed):
     ems, xms = _err_mantissas(tier), _x_mantissas(tier)
     ds = range(-12, 13)
     if tier == "quick":
-        xes = [-288, -100, -5, -2, -1, 0, 1, 2, 3, 5, 100, 287]
+        xes = [-288, -100, -5, -2, -1, 0, 1, 2, 3, 5, 100, 287, 297, 300]
     else:
         xes = [-288, -100, -17, -5, -4, -3, -2, -1, 0, 1, 2, 3, 4, 5, 16,
-               100, 287]
+               100, 287, 296, 297, 299, 300]
     for sign, xm, xe, em, d in itertools.product(("", "-"), xms, xes, ems, ds):
-        ee = max(-300, min(299, xe + d))
-        yield {"x": float(f"{sign}{xm}e{xe}"), "err": float(f"{em}e{ee}")}
+        ee = max(-300, min(308, xe + d))
+        yield {"x": float(f"{sign}{xm}e{xe}"),
+               "err": min(float(f"{em}e{ee}"), FMAX)}
     for em, ee in itertools.product(ems, range(-300, 300, 7)):
         yield {"x": 0.0, "err": float(f"{em}e{ee}")}
 
